@@ -38,4 +38,400 @@ theorem wsAfter_length (c : Cfg) (t : Nat) : (wsAfter c t).length = c.W := by
     | none => simpa [applyDelta] using ih
     | some st => simpa [applyDelta] using ih
 
+/-- The next task of worker `w` at or after task `t` is `w + W·j` (so `w` has done `j` fetches before `t`). -/
+def NextAt (W t w j : Nat) : Prop := t ≤ w + W * j ∧ w + W * j < t + W
+
+theorem nextAt_zero (W w : Nat) (hw : w < W) : NextAt W 0 w 0 := by
+  unfold NextAt; simp; exact hw
+
+theorem nextAt_hit (W t w j : Nat) (hW : 0 < W) (hw : w < W) (h : NextAt W t w j) (hm : t % W = w) :
+    w + W * j = t ∧ NextAt W (t + 1) w (j + 1) := by
+  have h1 : w + W * j = t :=
+    eq_of_mod_eq W t (w + W * j) hW h.1 h.2 (by rw [add_mul_mod W w j hw, hm])
+  refine ⟨h1, ?_⟩
+  unfold NextAt
+  rw [Nat.mul_succ]
+  omega
+
+theorem nextAt_miss (W t w j : Nat) (hw : w < W) (h : NextAt W t w j) (hm : t % W ≠ w) :
+    NextAt W (t + 1) w j := by
+  have hne : w + W * j ≠ t := by
+    intro he
+    apply hm
+    rw [← he, add_mul_mod W w j hw]
+  unfold NextAt at h ⊢
+  omega
+
+/-- The joint invariant of the ideal worker states and the accumulated worker snapshots: worker `w` has
+done `j` fetches in the ideal state, and the accumulated snapshot agrees unless `w`'s last task was sent
+without the `snapshot` flag. -/
+def WsRel (c : Cfg) (t : Nat) : Prop :=
+  ∀ w, w < c.W → ∃ j, NextAt c.W t w j ∧ (wsIdeal c.W t)[w]? = some ⟨j, false⟩ ∧
+    ((wsAfter c t)[w]? = some ⟨j, false⟩ ∨ (0 < j ∧ flag2 c (w + c.W * (j - 1)) = false))
+
+theorem wsRel_zero (c : Cfg) : WsRel c 0 := by
+  intro w hw
+  refine ⟨0, nextAt_zero c.W w hw, ?_, Or.inl ?_⟩
+  · simp [wsIdeal, hw]
+  · simp [wsAfter, hw]
+
+theorem wsRel_succ (c : Cfg) (t : Nat) (hW : 0 < c.W) (b : Nat) (hb : c.batches[t]? = some (.ok b))
+    (h : WsRel c t) : WsRel c (t + 1) := by
+  intro w hw
+  obtain ⟨j, hn, hi, ha⟩ := h w hw
+  have hst : stOf c t = if flag2 c t then some ⟨t / c.W + 1, false⟩ else none := by
+    simp [stOf, hb]
+  by_cases hm : t % c.W = w
+  · obtain ⟨he, hn'⟩ := nextAt_hit c.W t w j hW hw hn hm
+    refine ⟨j + 1, hn', ?_, ?_⟩
+    · simp only [wsIdeal, List.getElem?_modify, hm, if_true, hi, bump]; rfl
+    · have hdiv : t / c.W = j := by rw [← he]; exact add_mul_div c.W w j hw
+      cases hf : flag2 c t with
+      | true =>
+        left
+        simp only [wsAfter, hst, hf, if_true, applyDelta, hm, hdiv]
+        rw [List.getElem?_set_self (by rw [wsAfter_length]; exact hw)]
+      | false =>
+        right
+        refine ⟨Nat.succ_pos _, ?_⟩
+        simp only [Nat.add_sub_cancel, he, hf]
+  · refine ⟨j, nextAt_miss c.W t w j hw hn hm, ?_, ?_⟩
+    · simp only [wsIdeal, List.getElem?_modify, hm, if_false, hi]; rfl
+    · have : (wsAfter c (t + 1))[w]? = (wsAfter c t)[w]? := by
+        simp only [wsAfter]
+        cases stOf c t with
+        | none => rfl
+        | some st => simp only [applyDelta]; rw [List.getElem?_set_ne hm]
+      rw [this]; exact ha
+
+theorem errFree_get (c : Cfg) (he : errFree c) (t : Nat) (ht : t < c.batches.length) :
+    ∃ b, c.batches[t]? = some (.ok b) := by
+  have hmem : c.batches[t] ∈ c.batches := List.getElem_mem ht
+  cases hx : c.batches[t] with
+  | ok b => exact ⟨b, by rw [List.getElem?_eq_getElem ht, hx]⟩
+  | err => exact absurd hx (he _ hmem)
+
+theorem wsRel_all (c : Cfg) (hW : 0 < c.W) (he : errFree c) (t : Nat) (ht : t ≤ c.batches.length) : WsRel c t := by
+  induction t with
+  | zero => exact wsRel_zero c
+  | succ t ih =>
+    obtain ⟨b, hb⟩ := errFree_get c he t (by omega)
+    exact wsRel_succ c t hW b hb (ih (by omega))
+
+/-- `m` can be a `snapshot_step`: 0 without interval, a multiple of the interval otherwise. -/
+def SnapStep (c : Cfg) (m : Nat) : Prop := (c.interval = 0 → m = 0) ∧ (c.interval ≠ 0 → c.interval ∣ m)
+
+/-- **The window of `_try_put_index`, map-style.**  Every task among the last `W` before a multiple of the
+interval is dispatched with `snapshot = True`, for every interval ≥ 1 and every `W`. -/
+theorem flag_window (c : Cfg) (hm : c.iterable = false) (hI : c.interval ≠ 0) (m i : Nat)
+    (hd : c.interval ∣ m) (h1 : i < m) (h2 : m ≤ i + c.W) : flag2 c i = true := by
+  unfold flag2 flags
+  simp only [hI, hm, if_false, Bool.false_eq_true, Nat.add_sub_cancel, decide_eq_true_eq]
+  obtain ⟨q, rfl⟩ := hd
+  have hpos : 0 < c.interval := Nat.pos_of_ne_zero hI
+  have hdm := Nat.div_add_mod i c.interval
+  have hlt := Nat.mod_lt i hpos
+  -- i / I < q
+  have hq : i / c.interval < q := by
+    apply Nat.div_lt_of_lt_mul
+    exact h1
+  have : c.interval * (i / c.interval + 1) ≤ c.interval * q := Nat.mul_le_mul_left _ hq
+  rw [Nat.mul_succ] at this
+  omega
+
+/-- **The windows of `_try_put_index`, iterable branch — the arithmetic.**  A task dispatched at
+`_num_yielded = y` and yielded as batch number `n` (`y < n ≤ y + 1 + W·P`):
+* if `n` is a multiple `B` of the interval, it was dispatched with `snapshot_main = True`;
+* if the next multiple `B ≥ n` of the interval is less than `W` yields away (`B < n + W`: the task can be its
+  worker's last one yielded before the boundary), it was dispatched with `snapshot = True`.
+The two protocol facts used as hypotheses (`n ≤ y + 1 + W·P`; consecutive live tasks of a worker are `≤ W`
+yields apart) are what `snapshot_sound_iter_statement` still needs from the iterable invariant. -/
+theorem flag_window_iter (c : Cfg) (hit : c.iterable = true) (hI : c.interval ≠ 0) (sp y n B : Nat)
+    (hd : c.interval ∣ B) (hyn : y < n) (hnB : n ≤ B) (hT1 : n ≤ y + 1 + c.W * c.P) :
+    (n = B → (flags c sp y).1 = true) ∧ (B < n + c.W → (flags c sp y).2 = true) := by
+  unfold flags
+  simp only [hI, hit, if_false, if_true, decide_eq_true_eq, ge_iff_le]
+  obtain ⟨b, rfl⟩ := hd
+  have hpos : 0 < c.interval := Nat.pos_of_ne_zero hI
+  have hdm := Nat.div_add_mod y c.interval
+  have hq : y / c.interval < b := by
+    apply Nat.div_lt_of_lt_mul
+    omega
+  have : c.interval * (y / c.interval + 1) ≤ c.interval * b := Nat.mul_le_mul_left _ hq
+  rw [Nat.mul_succ] at this
+  constructor
+  · intro h; omega
+  · intro h; omega
+
+/-- **Window lemma.**  At a possible snapshot step the accumulated worker snapshots are the ideal worker
+states. -/
+theorem wsAfter_boundary (c : Cfg) (hW : 0 < c.W) (hm : c.iterable = false) (he : errFree c) (m : Nat)
+    (hle : m ≤ c.batches.length) (hs : SnapStep c m) : wsAfter c m = wsIdeal c.W m := by
+  apply List.ext_getElem?
+  intro w
+  by_cases hw : w < c.W
+  · obtain ⟨j, hn, hi, ha⟩ := wsRel_all c hW he m hle w hw
+    rw [hi]
+    rcases ha with ha | ⟨hj, hf⟩
+    · exact ha
+    · exfalso
+      by_cases hI : c.interval = 0
+      · have := hs.1 hI
+        subst this
+        unfold NextAt at hn
+        have : c.W * j < c.W * 1 := by omega
+        have := Nat.lt_of_mul_lt_mul_left this
+        omega
+      · have hj' : j = (j - 1) + 1 := by omega
+        unfold NextAt at hn
+        rw [hj', Nat.mul_succ] at hn
+        have := flag_window c hm hI m (w + c.W * (j - 1)) (hs.2 hI) (by omega) (by omega)
+        rw [this] at hf; cases hf
+  · rw [List.getElem?_eq_none (by rw [wsAfter_length]; omega),
+        List.getElem?_eq_none (by rw [wsIdeal_length]; omega)]
+
+/-! ## `idealAt` for map-style configurations -/
+
+theorem mapEvents_append (W i : Nat) (a b : List Item) :
+    mapEvents W i (a ++ b) = mapEvents W i a ++ mapEvents W (i + a.length) b := by
+  induction a generalizing i with
+  | nil => simp [mapEvents]
+  | cons x a ih =>
+    simp only [List.cons_append, mapEvents, List.length_cons, ih]
+    congr 3; omega
+
+theorem mapEvents_length (W i : Nat) (l : List Item) : (mapEvents W i l).length = l.length := by
+  induction l generalizing i with
+  | nil => rfl
+  | cons x l ih => simp [mapEvents, ih]
+
+theorem cut_mapEvents (W i : Nat) (l : List Item) (n : Nat) (he : ∀ it ∈ l, it ≠ Item.err) (hn : n ≤ l.length) :
+    cut (mapEvents W i l) n = mapEvents W i (l.take n) := by
+  induction l generalizing i n with
+  | nil => simp [mapEvents, cut]
+  | cons x l ih =>
+    cases n with
+    | zero => simp [mapEvents, cut]
+    | succ n =>
+      cases x with
+      | err => exact absurd rfl (he _ (List.mem_cons_self ..))
+      | ok b =>
+        simp only [mapEvents, cut, List.take_succ_cons, Nat.add_one_ne_zero, if_false, Nat.add_sub_cancel]
+        rw [ih (i + 1) n (fun it h => he it (List.mem_cons_of_mem _ h)) (by simpa using hn)]
+
+theorem foldl_mapEvents (W : Nat) (l : List Item) (n : Nat) (hn : n ≤ l.length) :
+    (mapEvents W 0 (l.take n)).foldl applyEv (List.replicate W ⟨0, false⟩) = wsIdeal W n := by
+  induction n with
+  | zero => simp [mapEvents, wsIdeal]
+  | succ n ih =>
+    have hlt : n < l.length := by omega
+    rw [List.take_succ_eq_append_getElem hlt, mapEvents_append, List.foldl_append, ih (by omega)]
+    simp only [List.length_take, Nat.zero_add, Nat.min_eq_left (Nat.le_of_lt hlt), mapEvents, List.foldl_cons,
+      List.foldl_nil, applyEv, wsIdeal]
+    rfl
+
+theorem lastOwner_mapEvents (W : Nat) (l : List Item) (n : Nat) (hn : n ≤ l.length) :
+    lastOwner W (mapEvents W 0 (l.take n)) = if n = 0 then W - 1 else (n - 1) % W := by
+  cases n with
+  | zero => simp [mapEvents, lastOwner]
+  | succ n =>
+    have hlt : n < l.length := by omega
+    rw [List.take_succ_eq_append_getElem hlt, mapEvents_append]
+    simp only [List.length_take, Nat.zero_add, Nat.min_eq_left (Nat.le_of_lt hlt), mapEvents, lastOwner,
+      List.getLast?_append, List.getLast?_singleton, Nat.add_one_ne_zero, if_false, Nat.add_sub_cancel]
+    rfl
+
+/-- `idealAt` in closed form, map-style, no failing fetch: step `n`, owner of task `n − 1`, sampler position
+`n`, worker `w` after its tasks among the first `n`. -/
+theorem idealAt_map (c : Cfg) (hm : c.iterable = false) (he : errFree c) (n : Nat) (hn : n ≤ c.batches.length) :
+    idealAt c n = ⟨n, if n = 0 then c.W - 1 else (n - 1) % c.W, n, wsIdeal c.W n⟩ := by
+  unfold idealAt events
+  simp only [hm, Bool.false_eq_true, if_false]
+  rw [cut_mapEvents c.W 0 c.batches n he hn, foldl_mapEvents c.W c.batches n hn,
+    lastOwner_mapEvents c.W c.batches n hn, mapEvents_length, List.length_take, Nat.min_eq_left hn]
+
+/-! ## the run invariant `snapshot.worker_states = wsAfter c snapshot.main` -/
+
+/-- What one action can do to the stored snapshot: nothing, or `_take_snapshot` stored the current
+accumulated worker snapshots together with the main snapshot of the task just consumed. -/
+def SnapRel (s s' : State) : Prop :=
+  s'.snap = s.snap ∨ (s'.snap.ws = s'.wsnaps ∧ s'.snap.main = s'.rcvdIdx)
+
+theorem popProc_snapRel (c : Cfg) (s : State) (e : Info) (l : List Info) (r : Res) (hv : c.Valid)
+    (hm : c.iterable = false) (hio : c.inOrder = true) (hmid : MidM c s) (hsn : SnapM c s)
+    (hi : s.info = e :: l) : SnapRel s (popProc c s l r) := by
+  have hinfo := hmid.info
+  rw [hi] at hinfo
+  have hlen := hmid.len
+  rw [hi] at hlen
+  simp only [List.length_cons] at hlen
+  obtain ⟨lo, hlo, hms⟩ := hsn.ms
+  have h1 : MidM c { s with info := l, rcvdIdx := s.rcvdIdx + 1, numTasks := s.numTasks.modify r.w (· - 1) } := by
+    refine ⟨hmid.status, hmid.sp, hmid.le, hmid.cyc, ?_, hinfo.2.2.2, hmid.wlen, hmid.msgs, hmid.resq⟩
+    simp only; omega
+  obtain ⟨hms2, hle2⟩ := tryPut_ms c _ lo hv hm hio h1 hms (by simp only; omega)
+  have hc := tryPut_sameCore c { s with info := l, rcvdIdx := s.rcvdIdx + 1, numTasks := s.numTasks.modify r.w (· - 1) }
+  have hproc : processData c { s with info := l, rcvdIdx := s.rcvdIdx + 1 } r =
+      (match r.kind with
+       | .data b => yieldItem c (tryPut c { s with info := l, rcvdIdx := s.rcvdIdx + 1, numTasks := s.numTasks.modify r.w (· - 1) }) r b
+       | _ => (tryPut c { s with info := l, rcvdIdx := s.rcvdIdx + 1, numTasks := s.numTasks.modify r.w (· - 1) }, .error)) := by
+    unfold processData; rfl
+  generalize tryPut c { s with info := l, rcvdIdx := s.rcvdIdx + 1, numTasks := s.numTasks.modify r.w (· - 1) } = s2
+    at hms2 hle2 hc hproc
+  have hr2 : s2.rcvdIdx = s.rcvdIdx + 1 := hc.rcvdIdx
+  have hsnap2 : s2.snap = s.snap := hc.snap
+  simp only at hle2
+  unfold popProc
+  rw [hproc]
+  cases hk : r.kind with
+  | data b =>
+    simp only
+    have hy := yieldItem_cases c s2 r b s.rcvdIdx lo hio hms2 hlo hr2 (by omega)
+    have hp := yieldItem_sameProto c s2 r b
+    have hw := yieldItem_wsnaps c s2 r b hio
+    generalize yieldItem c s2 r b = y at hy hp hw
+    obtain ⟨s3, o⟩ := y
+    simp only at hy hp hw
+    simp only [finish, SnapRel]
+    cases hy with
+    | plain hno ho hny hms3 hsn3 => left; rw [hsn3, hsnap2]
+    | snap hI hdue hf ho hny hms3 hsn3 =>
+      right
+      rw [hsn3, hw, hp.rcvdIdx, hr2]
+      exact ⟨rfl, rfl⟩
+    | fail hI hdue hf ho hny hms3 hsn3 => left; rw [hsn3, hsnap2]
+  | error => left; simp only [finish]; exact hsnap2
+  | notice => left; simp only [finish]; exact hsnap2
+  | ack => left; simp only [finish]; exact hsnap2
+
+theorem loopCase_snapRel (c : Cfg) (s s' : State) (hv : c.Valid) (hm : c.iterable = false) (hio : c.inOrder = true)
+    (hmid : MidM c s) (hsn : SnapM c s) (hl : LoopCase c s s') : SnapRel s s' := by
+  cases hl with
+  | stop hle heq =>
+    subst heq
+    left
+    simp only [finish]
+    split
+    · rfl
+    · exact (shutdownWorkers_sameMain c s).snap
+  | wait e l hi hres heq => subst heq; exact Or.inl rfl
+  | proc e l r hi hres hg hri heq =>
+    subst heq
+    exact popProc_snapRel c s e l r hv hm hio hmid hsn hi
+
+theorem SnapRel_of_eq (a b s' : State) (h : SnapRel a s') (e : a.snap = b.snap) : SnapRel b s' := by
+  unfold SnapRel at h ⊢
+  rw [← e]; exact h
+
+theorem step_snapRel (c : Cfg) (s s' : State) (a : Action) (hv : c.Valid) (hm : c.iterable = false)
+    (hio : c.inOrder = true) (ha : a ≠ .reset) (h : InvM c s) (hsn : SnapM c s) (hst : step c s a = some s') :
+    SnapRel s s' ∨ died s' := by
+  cases step_cases c s s' a hv hm hio ha h hst with
+  | died hd => exact Or.inr hd
+  | passive hs hph hobs => exact Or.inl (Or.inl hs.snap)
+  | nextDown hsd heq => subst heq; exact Or.inl (Or.inl rfl)
+  | nextLoop hsd hph hl => exact Or.inl (loopCase_snapRel c s s' hv hm hio (h.mid hsd) hsn hl)
+  | recv r rest hsd hph hq hg hlt hmid0 hr =>
+    left
+    have hsn0 : SnapM c { s with resQ := rest } := SnapM_frame c s _ [] hsn rfl (by simp) rfl (by simp) rfl rfl rfl rfl
+    cases hr with
+    | now e l hi hri heq =>
+      subst heq
+      have hmid1 : MidM c { s with resQ := rest, outstanding := s.outstanding - 1 } :=
+        MidM_of_eq c _ _ hmid0 rfl rfl rfl rfl rfl rfl rfl rfl
+      have hsn1 : SnapM c { s with resQ := rest, outstanding := s.outstanding - 1 } :=
+        SnapM_frame c _ _ [] hsn0 rfl (by simp) rfl (by simp) rfl rfl rfl rfl
+      exact SnapRel_of_eq _ s _ (popProc_snapRel c _ e l r hv hm hio hmid1 hsn1 hi) rfl
+    | store hne hmid2 hl =>
+      have hsn2 : SnapM c { s with resQ := rest, outstanding := s.outstanding - 1, info := setRes s.info r.idx r } :=
+        SnapM_frame c _ _ [] hsn0 rfl (by simp) rfl (by simp) rfl rfl rfl rfl
+      exact SnapRel_of_eq _ s _ (loopCase_snapRel c _ s' hv hm hio hmid2 hsn2 hl) rfl
+
+/-- All map-style invariants of the original development plus the snapshot-content invariant. -/
+structure AllM (c : Cfg) (s : State) : Prop where
+  inv : InvM c s
+  sn : SnapM c s
+  dl : DeltaM c s
+  sw : s.snap.ws = wsAfter c s.snap.main
+
+theorem step_allM (c : Cfg) (s s' : State) (a : Action) (hv : c.Valid) (hm : c.iterable = false)
+    (hio : c.inOrder = true) (ha : a ≠ .reset) (h : AllM c s) (hst : step c s a = some s') :
+    AllM c s' ∨ died s' := by
+  rcases step_invM c s s' a hv hm hio ha h.inv hst with h1 | h1
+  · rcases step_snapM c s s' a hv hm hio ha h.inv h.sn hst with h2 | h2
+    · rcases step_deltaM c s s' a hv hm hio ha h.inv h.dl hst with h3 | h3
+      · rcases step_snapRel c s s' a hv hm hio ha h.inv h.sn hst with h4 | h4
+        · left
+          refine ⟨h1, h2, h3, ?_⟩
+          rcases h4 with h4 | ⟨h4, h5⟩
+          · rw [h4]; exact h.sw
+          · rw [h4, h5]; exact h3.ws
+        · exact Or.inr h4
+      · exact Or.inr h3
+    · exact Or.inr h2
+  · exact Or.inr h1
+
+theorem run_allM (c : Cfg) (as : List Action) (s s' : State) (hv : c.Valid) (hm : c.iterable = false)
+    (hio : c.inOrder = true) (hnr : NoReset as) (h : AllM c s ∨ died s) (hr : run c s as = some s') :
+    AllM c s' ∨ died s' := by
+  induction as generalizing s with
+  | nil => simp only [run] at hr; cases hr; exact h
+  | cons a as ih =>
+    simp only [run] at hr
+    split at hr
+    · cases hr
+    · rename_i s1 hs1
+      refine ih s1 hnr.2 ?_ hr
+      rcases h with h | h
+      · exact step_allM c s s1 a hv hm hio hnr.1 h hs1
+      · exact Or.inr (died_step c s s1 a hs1 h)
+
+theorem init_allM (c : Cfg) (hv : c.Valid) (hm : c.iterable = false) (hio : c.inOrder = true) : AllM c (init c) := by
+  refine ⟨init_invM c hv hm hio, init_snapM c hv hm hio, init_deltaM c hv hm hio, ?_⟩
+  unfold init resetTail
+  generalize hs0 : ({ resetHead c _ with mainSnaps := [], lastW := c.W - 1, snap := _ } : State) = s0
+  have hc := prime_sameCore c (c.P * c.W) s0
+  rw [hc.snap]
+  subst hs0
+  rfl
+
+theorem allM_rcvd_le (c : Cfg) (s : State) (h : AllM c s) : s.rcvdIdx ≤ c.batches.length := by
+  rcases Bool.eq_false_or_eq_true s.shutdown with hsd | hsd
+  · rw [(h.inv.down hsd).2.2]; exact Nat.le_refl _
+  · have hmid := h.inv.mid hsd
+    have := hmid.len; have := hmid.le
+    omega
+
+theorem allM_snapStep (c : Cfg) (s : State) (h : AllM c s) : SnapStep c s.snap.step :=
+  ⟨h.sn.st0, fun h0 => (h.sn.st h0).1⟩
+
+/-- `snapshot_step` as a function of `_num_yielded`. -/
+theorem allM_step_eq (c : Cfg) (s : State) (h : AllM c s) :
+    s.snap.step = if c.interval = 0 then 0 else c.interval * (s.numYielded / c.interval) := by
+  by_cases h0 : c.interval = 0
+  · simp [h0, h.sn.st0 h0]
+  · obtain ⟨⟨k, hk⟩, h2, h3⟩ := h.sn.st h0
+    simp only [h0, if_false]
+    rw [hk] at h2 h3 ⊢
+    congr 1
+    exact (Nat.div_eq_of_lt_le (by rw [Nat.mul_comm]; exact h2) (by rw [Nat.mul_comm, Nat.mul_succ]; exact h3)).symm
+
+/-- **Soundness of the stored snapshot** from the invariants: it is the ideal state at `snapshot_step`. -/
+theorem allM_sound (c : Cfg) (hv : c.Valid) (hm : c.iterable = false) (he : errFree c) (s : State) (h : AllM c s) :
+    s.snap = idealAt c s.snap.step := by
+  have hle : s.snap.step ≤ c.batches.length := by
+    have h1 := allM_rcvd_le c s h
+    have h2 := h.sn.al he
+    by_cases h0 : c.interval = 0
+    · rw [h.sn.st0 h0]; exact Nat.zero_le _
+    · have := (h.sn.st h0).2.1; omega
+  rw [idealAt_map c hm he _ hle]
+  obtain ⟨hlw, hmain⟩ := h.sn.lw he
+  have hws := h.sw
+  rw [hmain, wsAfter_boundary c hv.1 hm he _ hle (allM_snapStep c s h)] at hws
+  rcases hs : s.snap with ⟨st, lw, mn, ws⟩
+  rw [hs] at hlw hmain hws
+  simp only at hlw hmain hws
+  rw [hlw, hmain, hws]
+
 end TDV.MPR
